@@ -244,13 +244,17 @@ def instances(tier, seed):
             for o in orders(ks, n):
                 n += 1
                 yield 'h_roundtrip', dict(width=width, keys=list(o), vk=vks[n % 2], route=routes[n % len(routes)])
+    yield from _rest(tier, seed, rnd, routes, vks)
+    # the bulk family last, so that a wall-clock cap never cuts the scenarios above
     w4 = list(key_sets(4))
-    if tier == 'quick':
-        w4 = rnd.sample(w4, 150)
+    w4 = rnd.sample(w4, 150 if tier == 'quick' else 12000)
     for ks in w4:
         n += 1
         o = orders(ks, n)[n % len(orders(ks, n))]
         yield 'h_roundtrip', dict(width=4, keys=list(o), vk='u8', route=routes[n % len(routes)])
+
+
+def _rest(tier, seed, rnd, routes, vks):
     # every value kind and route on a fixed awkward key set; duplicate writes; the key forms
     for vk in vks:
         for route in routes:
@@ -289,7 +293,7 @@ def twins(tier, seed):
 
 INSTANCE_TIMEOUT = {'quick': 200, 'thorough': 1200}
 BOUNDS = {
-    'key sets': 'every non-empty key set of widths 1..3 in up to three insertion orders; width 4: 150 seeded sets (quick) / all 65 535 (thorough)',
+    'key sets': 'every non-empty key set of widths 1..3 in up to three insertion orders; width 4: 150 seeded sets (quick) / 12 000 seeded sets of the 65 535 (thorough)',
     'values': 'all values of uint8/uint64/int16/coins(9 bit, two length classes)/addr_std/inline cells, symbolic',
     'symbolic keys': '2 fully symbolic keys for widths 1..4 (thorough 1..6), 3 for width 2 (thorough 2..4); wide keys (16..1023) symbolic in a 4-bit (thorough 6-bit) window, other bits concrete patterns',
     'key range': 'signed keys over width+2 bits for widths 1..4 (thorough 1..7) through set_int_key, set and a key serializer',
